@@ -10,12 +10,11 @@ theorem type_roundtrip (c : Nat) : (TYPE.ofCode c).toCode = c := by
   unfold TYPE.ofCode
   split <;> rfl
 
-/-- converting a canonical TYPE to its code and back gives the same TYPE -/
-theorem type_roundtrip' (t : TYPE) (h : TYPE.ofCode t.toCode = t ∨ ∀ n, t ≠ .Unknown n) :
+/-- converting a supported TYPE to its code and back gives the same TYPE: the 41 codes are
+pairwise distinct -/
+theorem type_roundtrip_supported (t : TYPE) (h : ∀ n, t ≠ .Unknown n) :
     TYPE.ofCode t.toCode = t := by
-  rcases h with h | h
-  · exact h
-  · cases t <;> first | rfl | exact absurd rfl (h _)
+  cases t <;> first | rfl | exact absurd rfl (h _)
 
 /-- **CLASS round trip / no aliasing**: a code converts iff it is one of the five, and back. -/
 theorem class_roundtrip (c : Nat) :
